@@ -1,5 +1,5 @@
 #[cfg(test)]
-mod verif_demo_xlsxwb_table_panics {
+mod verif_demo_xlsxwb_table_cell_count {
     use super::*;
     use std::io::{Cursor, Write};
     const MAIN: &str = "http://schemas.openxmlformats.org/spreadsheetml/2006/main";
@@ -42,20 +42,15 @@ mod verif_demo_xlsxwb_table_panics {
     }
 
     #[test]
-    fn verif_demo_table_with_header_row_only_panics_in_table_by_name() {
-        // a table consisting of its header row only: ref A1:B1, headerRowCount defaults to 1 -> stored dimensions start (1,0) > end (0,1)
-        let mut x = open(r#"ref="A1:B1""#);
+    fn verif_demo_table_over_the_whole_sheet_overflows_the_u32_cell_count() {
+        // a table over the whole grid: ref A1:XFD1048576 (legal); data dimensions (1,0)-(1048575,16383) = 2^34 - 2^14 cells.
+        // table_by_name -> Range::range -> Range::new computes the cell count in u32 (debug build: "attempt to multiply with overflow";
+        // release build: silent wrap-around, a buffer shorter than height * width)
+        let mut x = open(r#"ref="A1:XFD1048576""#);
         x.load_tables().unwrap();
-        assert_eq!(x.tables.as_ref().unwrap()[0].3, Dimensions { start: (1, 0), end: (0, 1) });
-        // Range::range -> Range::new: "invalid range bounds"
+        assert_eq!(x.tables.as_ref().unwrap()[0].3, Dimensions { start: (1, 0), end: (1048575, 16383) });
         let r = std::panic::catch_unwind(std::panic::AssertUnwindSafe(|| x.table_by_name("T").map(|_| ())));
-        assert!(r.is_err()); // expected: Ok (a table without data rows) or Err, not a panic
-    }
-
-    #[test]
-    fn verif_demo_table_with_header_row_only_panics_in_table_by_name_ref() {
-        let mut x = open(r#"ref="A1:B1""#);
-        x.load_tables().unwrap();
+        assert!(r.is_err()); // expected: Ok or Err, not a panic
         let r = std::panic::catch_unwind(std::panic::AssertUnwindSafe(|| x.table_by_name_ref("T").map(|_| ())));
         assert!(r.is_err());
     }
